@@ -375,7 +375,11 @@ impl<C: CrcCalculator> Encapsulator<C> {
             }
 
             pkt_type = PktType::FirstFragPkt;
-            pdu_len_encapsulated = buffer_len - min_header_len;
+            // the payload is limited by the buffer and by the maximum GSE length
+            pdu_len_encapsulated = std::cmp::min(
+                buffer_len - min_header_len,
+                GSE_LEN_MAX + FIXED_HEADER_LEN - min_header_len,
+            );
             gse_len =
                 (FRAG_ID_LEN + TOTAL_LENGTH_LEN + PROTOCOL_LEN + label_len + pdu_len_encapsulated)
                     as u16;
@@ -534,7 +538,7 @@ impl<C: CrcCalculator> Encapsulator<C> {
         let encap_status: EncapStatus;
         // End packet
         // if the rest of packet fits in the buffer
-        if buffer_len >= gse_end_len + FIXED_HEADER_LEN {
+        if buffer_len >= gse_end_len + FIXED_HEADER_LEN && gse_end_len <= GSE_LEN_MAX {
             header =
                 generate_gse_header(&PktType::EndFragPkt, &LabelType::ReUse, gse_end_len as u16);
             pdu_len_encapsulated = pdu_len_remaining;
@@ -549,7 +553,11 @@ impl<C: CrcCalculator> Encapsulator<C> {
         else if buffer_len > FIXED_HEADER_LEN + FRAG_ID_LEN {
             let gse_len: usize;
 
-            let pdu_len_available = buffer_len - (FIXED_HEADER_LEN + FRAG_ID_LEN);
+            // the payload is limited by the buffer and by the maximum GSE length
+            let pdu_len_available = std::cmp::min(
+                buffer_len - (FIXED_HEADER_LEN + FRAG_ID_LEN),
+                GSE_LEN_MAX - FRAG_ID_LEN,
+            );
 
             if pdu_len_available > pdu_len_remaining {
                 gse_len = FRAG_ID_LEN + pdu_len_remaining;
@@ -672,8 +680,17 @@ impl<C: CrcCalculator> Encapsulator<C> {
                 return Err(EncapError::ErrorPduLength);
             }
 
+            // the header and the extensions alone exceed the maximum GSE length
+            if min_header_len > GSE_LEN_MAX + FIXED_HEADER_LEN {
+                return Err(EncapError::ErrorSizeBuffer);
+            }
+
             pkt_type = PktType::FirstFragPkt;
-            pdu_len_encapsulated = buffer_len - min_header_len;
+            // the payload is limited by the buffer and by the maximum GSE length
+            pdu_len_encapsulated = std::cmp::min(
+                buffer_len - min_header_len,
+                GSE_LEN_MAX + FIXED_HEADER_LEN - min_header_len,
+            );
             gse_len = (FRAG_ID_LEN
                 + TOTAL_LENGTH_LEN
                 + PROTOCOL_LEN
@@ -883,7 +900,11 @@ pub fn encap_preview(
         }
 
         pkt_type = PktType::FirstFragPkt;
-        pdu_len_encapsulated = buffer_len - min_header_len;
+        // the payload is limited by the buffer and by the maximum GSE length
+        pdu_len_encapsulated = std::cmp::min(
+            buffer_len - min_header_len,
+            GSE_LEN_MAX + FIXED_HEADER_LEN - min_header_len,
+        );
         gse_len = (FRAG_ID_LEN + TOTAL_LENGTH_LEN + PROTOCOL_LEN + label_len + pdu_len_encapsulated)
             as u16;
         pkt_len = gse_len + (FIXED_HEADER_LEN) as u16;
@@ -934,7 +955,7 @@ pub fn encap_frag_preview(
     let pkt_len: u16;
     // End packet
     // if the rest of packet fits in the buffer
-    if buffer_len >= gse_end_len + FIXED_HEADER_LEN {
+    if buffer_len >= gse_end_len + FIXED_HEADER_LEN && gse_end_len <= GSE_LEN_MAX {
         pdu_len_encapsulated = pdu_len_remaining;
 
         let mut buffer_offset = FIXED_HEADER_LEN + FRAG_ID_LEN + pdu_len_encapsulated;
@@ -947,7 +968,11 @@ pub fn encap_frag_preview(
     else if buffer_len > FIXED_HEADER_LEN + FRAG_ID_LEN {
         let gse_len: usize;
 
-        let pdu_len_available = buffer_len - (FIXED_HEADER_LEN + FRAG_ID_LEN);
+        // the payload is limited by the buffer and by the maximum GSE length
+        let pdu_len_available = std::cmp::min(
+            buffer_len - (FIXED_HEADER_LEN + FRAG_ID_LEN),
+            GSE_LEN_MAX - FRAG_ID_LEN,
+        );
 
         if pdu_len_available > pdu_len_remaining {
             gse_len = FRAG_ID_LEN + pdu_len_remaining;
